@@ -562,6 +562,24 @@ def run(ctx):
         if isinstance(t, tuple) and t and t[0] == "vec" and len(t) > 1 and not t[1]:
             return True
         return False
+
+    def is_none(t):
+        t = W.expand(t) if t is not None else None
+        return isinstance(t, tuple) and t and ((t[0] == "agg" and str(t[1]).endswith("Option::None")) or (t[0] == "enum" and str(t[-1]) == "None"))
+
+    def none_reads_as_unset(gr):
+        # the field is an Option and starts as None: the getter must turn None into the unset value (`map_or(0, ..)`, `unwrap_or(0)`, ..)
+        g = values.strip_payload(gr) if gr is not None else None
+        for _ in range(4):
+            if is_call(g) and callee_name(g[1]) in ("map_or", "unwrap_or") and len(g[2]) >= 2:
+                return unset_value(g[2][1])
+            if is_call(g) and callee_name(g[1]) == "unwrap_or_default":
+                return True
+            if is_call(g) and callee_name(g[1]) in ("into", "from", "get", "clone", "as_str", "as_ref", "deref", "as_slice") and g[2]:
+                g = values.strip_payload(g[2][0])
+                continue
+            break
+        return False
     nreq = 0
     for lname, adt in (("file", FILE), ("env", ENVC)):
         ctors = W.ctor_fields(adt)
@@ -574,7 +592,8 @@ def run(ctx):
             for (cfn_, cbb, cidx, cfields) in ctors:
                 nreq += 1
                 init = cfields.get(gf)
-                ctx.check("refusal", "%s/required-%s-starts-out-unset" % (lname, k), gf is not None and init is not None and unset_value(init),
+                ctx.check("refusal", "%s/required-%s-starts-out-unset" % (lname, k),
+                          gf is not None and init is not None and (unset_value(init) or (is_none(init) and none_reads_as_unset(_gr))),
                           "%s.%s starts as the unset value is_valid_config refuses (%s)" % (adt.split("::")[-1], gf, fmt(init) if init is not None else "?"),
                           "%s is a Required setting, but %s constructs its field as %s: when the %s is missing the server starts with that value instead of refusing"
                           % (k, adt.split("::")[-1], fmt(W.expand(init)) if init is not None else "nothing we can read", "key" if lname == "file" else "variable"),
